@@ -165,3 +165,72 @@ Definition observe5 (v : variant) (c : fcfg) (rem : bool) (ops : list op5) : lis
 Definition cap5 (c : fcfg) (r : N) : N := align_up5 (f_al c) r.
 Fixpoint live_bytes5 (c : fcfg) (l : list (N * N)) : N :=
   match l with [] => 0 | (_, r) :: t => cap5 c r + live_bytes5 c t end.
+
+(* ------------------------------------------------------------------------------------------- *)
+(* Level 4, ThreadLocalPool: a per-thread arena in front of a MutexBasedPool                   *)
+(* ------------------------------------------------------------------------------------------- *)
+(* ThreadLocalCache: hot_pos, hot_end = arena_size / 2, local_free_lists (Vec<Vec<usize>>, one per bin; here one list
+   of (bin, offset) pairs, newest first).  Offsets returned for fast sizes are offsets into the thread's arena; when
+   the hot half is exhausted, and for large sizes, they are offsets into the shared MutexBasedPool.  Both spaces
+   start at 0 (finding five_tl_offset_alias).  free() sends every offset below arena_size to the local lists. *)
+Record tl5 := mkT5 { t5_cache : option (N * list (N * N)); t5_glob : fst5 }.
+Definition tl5_init : tl5 := mkT5 None init5.
+Definition glob_cfg (c : fcfg) : fcfg := mkFC KMutex (f_al c) (f_cap c) (f_fast c).
+
+Definition tl5_alloc (c : fcfg) (arena : N) (st : tl5) (size : N) : option N * tl5 :=
+  if (size =? 0) || (W63 <=? size) then (None, st)
+  else
+    let a := align_up5 (f_al c) size in
+    if a <=? f_fast c then
+      let '(hot, fl) := match t5_cache st with Some x => x | None => (0, []) end in     (* the cache is created on first use *)
+      let b := a / f_al c - 1 in
+      match (if b <? nbins5 c then pop5 b fl else None) with
+      | Some (o, rest) => (Some o, mkT5 (Some (hot, rest)) (t5_glob st))
+      | None =>
+          if hot + a <=? arena / 2 then (Some hot, mkT5 (Some (hot + a, fl)) (t5_glob st))
+          else let '(r, g') := alloc5 Fixed (glob_cfg c) (t5_glob st) a in (r, mkT5 (Some (hot, fl)) g')
+      end
+    else let '(r, g') := alloc5 Fixed (glob_cfg c) (t5_glob st) a in (r, mkT5 (t5_cache st) g').
+
+Definition tl5_free (c : fcfg) (arena : N) (st : tl5) (off size : N) : bool * tl5 :=
+  if (size =? 0) || (W63 <=? size) then (false, st)
+  else
+    let a := align_up5 (f_al c) size in
+    let to_glob := let '(ok, g') := free5 (glob_cfg c) (t5_glob st) off a in (ok, mkT5 (t5_cache st) g') in
+    if a <=? f_fast c then
+      match t5_cache st with
+      | Some (hot, fl) =>
+          if off <? arena then
+            let b := a / f_al c - 1 in
+            (true, mkT5 (Some (hot, if b <? nbins5 c then (b, off) :: fl else fl)) (t5_glob st))
+          else to_glob
+      | None => to_glob
+      end
+    else to_glob.
+
+Record st5t := mkS5T { p5t : tl5; live5t : list (N * N) }.
+Definition step5t (c : fcfg) (arena : N) (s : st5t) (o : op5) : st5t * option Z :=
+  match o with
+  | A5 size =>
+      match tl5_alloc c arena (p5t s) size with
+      | (Some off, p') => (mkS5T p' (live5t s ++ [(off, size)]), Some (Z.of_N off))
+      | (None, p') => (mkS5T p' (live5t s), None)
+      end
+  | F5 k =>
+      match live5t s with
+      | [] => (s, Some 0%Z)
+      | _ =>
+          let i := N.to_nat (k mod nlen (live5t s)) in
+          let '(off, req) := nth i (live5t s) (0, 0) in
+          let '(ok, p') := tl5_free c arena (p5t s) off req in
+          (mkS5T p' (remove_nth i (live5t s)), if ok then Some 0%Z else None)
+      end
+  end.
+Fixpoint run5t (c : fcfg) (arena : N) (s : st5t) (ops : list op5) : st5t * list (option Z) :=
+  match ops with
+  | [] => (s, [])
+  | o :: t => let '(s1, r) := step5t c arena s o in
+              let '(s2, rs) := run5t c arena s1 t in (s2, r :: rs)
+  end.
+Definition final5t (c : fcfg) (arena : N) (ops : list op5) : st5t := fst (run5t c arena (mkS5T tl5_init []) ops).
+Definition observe5t (c : fcfg) (arena : N) (ops : list op5) : list (option Z) := snd (run5t c arena (mkS5T tl5_init []) ops).
